@@ -75,6 +75,11 @@ struct Item {
     no_ptr_rule: bool,
     #[serde(default)]
     keep_pub: bool,
+    /// E5c: name of a raw-pointer FIELD (`f: *const T` next to a `PhantomData<&'a T>` marker) that is represented as the
+    /// borrowed slice it was taken from: field type -> `&'a [T]`, `f: X.as_ptr()` in the struct literal -> `f: X.as_slice()`,
+    /// `*self.f.add(e)` -> `self.f[e]`
+    #[serde(default)]
+    ptr_field: Option<String>,
     /// E8b: `for PAT in X.m()` where `m` is the unit's own iterator-returning method whose body is `CTOR(self)`:
     /// method name -> CTOR (e.g. "arcs" -> "ArcsIterator::new")
     #[serde(default)]
@@ -462,6 +467,15 @@ impl<'a> Ctx<'a> {
                         }
                     }
                 }
+                // E5c: `self.F.add(e)` with F the declared pointer field
+                if let (Some(pf), syn::Expr::Field(fe)) = (&self.item.ptr_field, &*mc.receiver) {
+                    if let (syn::Member::Named(m), syn::Expr::Path(bp)) = (&fe.member, &*fe.base) {
+                        if m == pf && bp.path.is_ident("self") {
+                            let idx = self.src.slice(mc.args[0].span()).to_string();
+                            return Some((format!("self.{pf}"), idx));
+                        }
+                    }
+                }
                 None
             }
             syn::Expr::Unsafe(u) if u.block.stmts.len() == 1 => {
@@ -729,6 +743,27 @@ impl<'a, 'ast> Visit<'ast> for Ctx<'a> {
                         return;
                     }
                 }
+            }
+            syn::Expr::Struct(es) if self.item.ptr_field.is_some() => {
+                // E5c: `F: X.as_ptr()` in a struct literal -> `F: X.as_slice()`
+                let pf = self.item.ptr_field.clone().unwrap();
+                for fv in &es.fields {
+                    let is_pf = matches!(&fv.member, syn::Member::Named(m) if *m == pf);
+                    if is_pf {
+                        if let syn::Expr::MethodCall(mc) = &fv.expr {
+                            if mc.method == "as_ptr" && mc.args.is_empty() {
+                                let (a, b) = self.src.range(mc.method.span());
+                                self.add(a, b, "as_slice".to_string(), "E5c pointer field initialiser -> borrowed slice");
+                                self.visit_expr(&mc.receiver);
+                                continue;
+                            }
+                        }
+                        self.errors.push(format!("E5c: side condition failed: field `{pf}` is not initialised by `X.as_ptr()`"));
+                    } else {
+                        self.visit_expr(&fv.expr);
+                    }
+                }
+                return;
             }
             syn::Expr::Index(_) => self.site("index"),
             syn::Expr::Unsafe(_) => self.site("unsafe_block"),
@@ -1233,6 +1268,40 @@ fn extract_struct(file: &syn::File, src: &Src, it: &Item) -> ItemOut {
                 out.orig_end_line = src.line_of(we);
                 let mut cx = Ctx { src, item: it, edits: vec![], seq: 0, loops: vec![], closures: 0, sites: BTreeMap::new(), errors: vec![], anchors_found: vec![], ptr_base: BTreeMap::new(), ptr_elem: BTreeMap::new(), ptr_cursor: BTreeMap::new(), ptr_end: BTreeMap::new(), tmp_n: 0, ptr_pos: BTreeMap::new(), hoisted: vec![], in_impl: false, inline_checks: vec![], anchor_occ: BTreeMap::new(), self_iter_types: vec![] };
                 cx.visit_fields(&s.fields);
+                if let Some(pf) = &it.ptr_field {
+                    // E5c: the raw-pointer field becomes the borrowed slice it is taken from
+                    let lt = s.generics.lifetimes().next().map(|l| l.lifetime.to_string());
+                    let has_marker = s.fields.iter().any(|f| { let t = norm(src.slice(f.ty.span())); t.starts_with("PhantomData<&") || t.contains("::PhantomData<&") });
+                    let mut done = false;
+                    for f in s.fields.iter() {
+                        if f.ident.as_ref().map(|i| i == pf).unwrap_or(false) {
+                            if let (syn::Type::Ptr(tp), Some(lt)) = (&f.ty, &lt) {
+                                if tp.const_token.is_some() && has_marker {
+                                    let (a, b) = src.range(f.ty.span());
+                                    let elem = norm(src.slice(tp.elem.span()));
+                                    cx.edits.push(Edit { start: a, end: b, text: format!("&{lt} [{elem}]"), rule: "E5c pointer field -> borrowed slice".into(), seq: 5000 });
+                                    done = true;
+                                }
+                            }
+                        }
+                    }
+                    if !done { out.errors.push(format!("E5c: side condition failed: `{pf}` is not a `*const T` field of a struct with a lifetime parameter and a PhantomData<&'a _> marker")); }
+                    // side condition: every literal of this struct in the file initialises the field with `X.as_ptr()`
+                    struct Lits<'x> { name: String, pf: String, bad: usize, n: usize, src: &'x Src }
+                    impl<'x, 'ast> Visit<'ast> for Lits<'x> {
+                        fn visit_expr_struct(&mut self, es: &'ast syn::ExprStruct) {
+                            if last_seg(&es.path) == self.name {
+                                self.n += 1;
+                                let ok = es.fields.iter().any(|fv| matches!(&fv.member, syn::Member::Named(m) if *m == self.pf) && norm(self.src.slice(fv.expr.span())).ends_with(".as_ptr()"));
+                                if !ok { self.bad += 1; }
+                            }
+                            syn::visit::visit_expr_struct(self, es);
+                        }
+                    }
+                    let mut l = Lits { name: s.ident.to_string(), pf: pf.clone(), bad: 0, n: 0, src };
+                    l.visit_file(file);
+                    if l.bad > 0 || l.n == 0 { out.errors.push(format!("E5c: side condition failed: {} of {} literals of `{}` do not initialise `{pf}` with `X.as_ptr()`", l.bad, l.n, s.ident)); }
+                }
                 let (fs, fe) = src.range(s.fields.span());
                 let mut errs = vec![];
                 let mut fields = apply_edits(src, fs, fe, cx.edits.clone(), &mut errs);
